@@ -7,14 +7,15 @@ from ..abstools import *
 from ..core import AnalysisError, own_nodes, norm
 from .. import roles
 
-LEVEL_TEXT = ("static analysis by finite-domain abstract interpretation of call.py / cnary.py on the real ASTs: (D1) the purity "
-              "formula reduces to n under the mixing model as an exact rational identity, and to r*2^v without purity; (D2) the "
-              "reference / germline copy table over ploidy 1..6 x reference sex x sample sex x naming x PAR genome x chromosome "
-              "class equals the stated one, the pure-path sibling agrees, and the PAR filters read the keys of their own sex "
-              "chromosome; (D3) the rescaled log2 is log2(max(n/ploidy,0.001)) + 1 exactly on the classes with r = ploidy//2; (D4) "
-              "the value stored in `cn` by do_call is round()ed, integer and has interval lower bound >= 0 for every real log2 "
-              "and purity in (0,1], and without purity it is round(r*2^log2) row by row also on a literal table whose chromosomes are interleaved; (D5) sex / PAR / ploidy / purity flags reach same-role parameters at every call site. "
-              "Exact over the rationals; IEEE rounding error is not modelled.")
+LEVEL_TEXT = ('static analysis by finite-domain abstract interpretation of call.py / cnary.py on the real ASTs: (D1) the purity formula reduces '
+              'to n under the mixing model as an exact rational identity, and to r*2^v without purity; (D2) the reference / germline copy table '
+              'over ploidy 1..6 x reference sex x sample sex x naming x PAR genome x chromosome class equals the stated one, the pure-path '
+              'sibling agrees, and the PAR filters read the keys of their own sex chromosome; (D3) the rescaled log2 is log2(max(n/ploidy,0.001))'
+              ' + 1 exactly on the classes with r = ploidy//2; (D4) the value stored in `cn` by do_call is round()ed, integer and has interval '
+              'lower bound >= 0 for every real log2 and purity in (0,1], and without purity it is round(r*2^log2) row by row also on a literal '
+              'table whose chromosomes are interleaved; (D6) the stated sample sex always wins over the inferred one in verify_sample_sex (C15 '
+              'rule); (D5) sex / PAR / ploidy / purity flags reach same-role parameters at every call site. Exact over the rationals; IEEE '
+              'rounding error is not modelled.')
 TECHNIQUE = "abstract interpretation over finite row-class / flag domains with exact rational terms and intervals; role-flow lint"
 
 GETDF = "cnvlib.call.get_as_dframe_and_set_reference_and_expect_copies"
